@@ -101,8 +101,8 @@ class Ctx:
         if e is not None:
             s.known.setdefault(full, e.get('what', what)); return False
         if full in s.viol: return True
-        os.makedirs(f'{VERIF}/replays/{s.prop}', exist_ok=True)
-        path = f'{VERIF}/replays/{s.prop}/{stable_hash(full)}.json'
+        rdir = os.environ.get('VERIF_REPLAY_DIR', f'{VERIF}/replays'); os.makedirs(f'{rdir}/{s.prop}', exist_ok=True)
+        path = f'{rdir}/{s.prop}/{stable_hash(full)}.json'
         json.dump({'property': s.prop, 'key': full, 'what': what, 'seed': s.seed, 'tier': s.tier, 'witness': witness}, open(path, 'w'), indent=1, default=str)
         s.viol[full] = (what, path); return True
     def inconc(s, why):
@@ -119,9 +119,9 @@ class Ctx:
         if s.inconclusive: cov['inconclusive_examples'] = s.inconclusive[:5]
         ev = {'property_id': s.prop, 'tier': s.tier, 'seed': s.seed, 'level': s.level, 'coverage': cov,
               'assumptions': s.assumptions, 'wall_s': wall, 'violations': len(s.viol)}
-        os.makedirs(f'{VERIF}/evidence', exist_ok=True)
-        tmp = f'{VERIF}/evidence/{s.prop}.json.tmp'
-        json.dump(ev, open(tmp, 'w'), indent=1, default=str); os.replace(tmp, f'{VERIF}/evidence/{s.prop}.json')
+        edir = os.environ.get('VERIF_EVIDENCE_DIR', f'{VERIF}/evidence'); os.makedirs(edir, exist_ok=True)   # overridden only by tools/seedtest.py (runs against mutated scratch copies)
+        tmp = f'{edir}/{s.prop}.json.tmp'
+        json.dump(ev, open(tmp, 'w'), indent=1, default=str); os.replace(tmp, f'{edir}/{s.prop}.json')
         shutil.rmtree(s.scratch, ignore_errors=True)
         for k, what in sorted(s.known.items()): print(f'KNOWN-FINDING: property={s.prop} {k} :: {what}')
         for k, (what, path) in sorted(s.viol.items()):
